@@ -190,3 +190,42 @@ for _name, _kind, _nin in [('dot', 'general', 1), ('inv', 'general', 1), ('solve
     _op = Op('linalg:' + _name, _gen_linalg(_name, _kind, _nin), _run_linalg(_name), 'linalg')
     _op.ref0 = _ref0_linalg(_name)
     reg(_op)
+
+
+# ---------------------------------------------------------------- in-place arithmetic (x op= y): the result is x afterwards
+def _gen_inplace(opname):
+    def gen(rng, Dmax=6, Pmax=3):
+        D = rng.randint(2, max(2, Dmax)); P = rng.randint(1, Pmax)
+        xs = rng.choice([(), (3,), (2, 2), (2, 3)])
+        ys = rng.choice([xs, xs, ()]) if xs != () else ()
+        x = _rand_utpm(rng, D, P, xs, base_nz=True)
+        y = _rand_utpm(rng, D, P, ys, base_nz=True)
+        return dict(op='inplace:' + opname, inputs=[x.tolist(), y.tolist()])
+    return gen
+
+
+def _run_inplace(opname):
+    def run(algopy, case, inputs):
+        x = algopy.UTPM(numpy.array(inputs[0], dtype=float))       # the left operand is modified: work on a copy
+        y = algopy.UTPM(_as(inputs[1]))
+        if opname == 'iadd':
+            x += y
+        elif opname == 'isub':
+            x -= y
+        elif opname == 'imul':
+            x *= y
+        else:
+            x /= y
+        return [numpy.asarray(x.data)]
+    return run
+
+
+def _ref0_inplace(opname):
+    f = {'iadd': numpy.add, 'isub': numpy.subtract, 'imul': numpy.multiply, 'idiv': numpy.divide}[opname]
+    return lambda case, ins0: [f(ins0[0], ins0[1])]
+
+
+for _o in ('iadd', 'isub', 'imul', 'idiv'):
+    _op = Op('inplace:' + _o, _gen_inplace(_o), _run_inplace(_o), 'arithmetic')
+    _op.ref0 = _ref0_inplace(_o)
+    reg(_op)
